@@ -161,6 +161,32 @@ theorem recreate_as_if_never_existed {s s' t : State} {id : Id} (v : ValsA) (hi 
     createA_accepts_iff ht hid (by rw [ha]; exact hna)
   exact ((acceptableA_congr ha hb).symm.trans this.symm)
 
+/-- the non-nullable unique index of the *parent* store refuses an empty value also when the
+    create comes through the child store (the parent's indexing context is a create context) -/
+theorem child_create_empty_name_rejected {s : State} {id : Id} {v : ValsA} {code : Bytes} {pals : List Id}
+    (hv : v.name = []) : ∀ s', createA1 s id v code pals ≠ .ok s' := by
+  intro s' h
+  unfold createA1 at h
+  split at h
+  · cases h
+  · split at h
+    · cases h
+    · simp only [bind, Except.bind] at h
+      split at h
+      · cases h
+      · next s2 hsl =>
+        obtain ⟨g', _, rfl⟩ := setGroups_ok hsl
+        split at h
+        · cases h
+        · next s2' hsp =>
+          obtain ⟨p', _, rfl⟩ := setPals_ok hsp
+          split at h
+          · cases h
+          · next s3 hs3 =>
+            obtain ⟨un, ua, sr, hun, _⟩ := afterUpdateA_ok hs3
+            simp only [Map.lookup_insert, if_true, evName] at hun
+            exact C03.uniqueAfter_true_nonempty hun hv
+
 /-! ### witnesses (all by evaluation of the model)
 
   ids: a = [97], b = [98]; owners p = [112], q = [113]; values x y z m n. -/
